@@ -356,6 +356,11 @@ fn interpolate(lit: &str, exprs: &[String]) -> String {
     for c in lit.chars() {
         if depth > 0 {
             current.push(c);
+        } else if back_slash && (c == '{' || c == '}') {
+            // An escaped brace is a literal brace, which an f-string spells doubled.
+            out.pop();
+            out.push(c);
+            out.push(c);
         } else {
             out.push(c);
         }
@@ -368,7 +373,8 @@ fn interpolate(lit: &str, exprs: &[String]) -> String {
                 if depth == 0 {
                     let inner = &current[..current.len() - 1];
                     if inner.is_empty() {
-                        out.push('}');
+                        // Empty braces carry no expression: literal braces.
+                        out.push_str("{}}");
                     } else if let Some(expr) = exprs.next() {
                         out.push_str(expr);
                         out.push('}');
